@@ -4,8 +4,8 @@ from gen_util import *
 import pyref
 from props.c07 import session_case, step_table_cases, sibling_key_cases, typed_at_every_position_cases
 
-MODULES = ["WowSrp.Props.C08", "WowSrp.Props.Source.C08", "WowSrp.Props.Source.Structural.C08", "WowSrp.Props.Source.CipherLoopsTbc", "WowSrp.Props.Source.Glue.Tbc"]
-THEOREMS = ["C08_constants", "C08_seed_same", "C08_seed_value", "C08_key_derivation", "C08_keys_equal", "C08_fresh_inv", "C08_step_bounds", "C08_recurrence", "C08_recurrence_vanilla", "C08_chunking", "C08_empty_call", "C08_inverse_step", "C08_roundtrip", "C08_source_layout", "C08_source_structural_impls", "C08_translated_encrypt_step", "C08_translated_decrypt_step", "C08_translated_moduli", "C08_roundtrip_from_equal_states", "C08_source_glue_tbc"]
+MODULES = ["WowSrp.Props.C08", "WowSrp.Props.Source.C08", "WowSrp.Props.Source.Structural.C08", "WowSrp.Props.Source.CipherLoopsTbc", "WowSrp.Props.Source.Glue.Tbc", "WowSrp.Props.Source.HashesTbcKey"]
+THEOREMS = ["C08_constants", "C08_seed_same", "C08_seed_value", "C08_key_derivation", "C08_keys_equal", "C08_fresh_inv", "C08_step_bounds", "C08_recurrence", "C08_recurrence_vanilla", "C08_chunking", "C08_empty_call", "C08_inverse_step", "C08_roundtrip", "C08_source_layout", "C08_source_structural_impls", "C08_translated_encrypt_step", "C08_translated_decrypt_step", "C08_translated_moduli", "C08_roundtrip_from_equal_states", "C08_source_glue_tbc", "C08_translated_enc_new", "C08_translated_dec_new"]
 RULE = ("as C07 with the TBC objects: streams under random/special 40-byte session keys, random partitions on both sides; the encrypter half and "
         "the decrypter half derive their keys separately in the Rust, so mutually inverse traffic from byte 0 checks both derivations; the "
         "ciphertext is compared with an independent HMAC-SHA1(seed, K) + recurrence; mixed sessions drive one object through every entry point and object form (typed helpers, Read/Write wrappers, split, clone) in random order. distinct = distinct lines; non-trivial = stream length >= 1")
